@@ -9,6 +9,7 @@ import (
 	"fmt"
 	"io"
 	"strings"
+	"time"
 
 	coraza "github.com/corazawaf/coraza/v3"
 	"github.com/corazawaf/coraza/v3/experimental/plugins/plugintypes"
@@ -41,7 +42,7 @@ type cfg struct {
 	L      int    `json:"limit"`
 	M      int    `json:"mem_limit"`
 	Action string `json:"action"`
-	Proc   string `json:"processor"` // urlencoded | raw
+	Proc   string `json:"processor"`           // urlencoded | raw
 	Ctl    *int   `json:"ctl_limit,omitempty"` // phase-1/3 ctl:requestBodyLimit / responseBodyLimit value
 }
 
@@ -417,6 +418,8 @@ func run(c *runner.Ctx) {
 		}
 		defer scen.Close(w)
 		res := bfs.Search(len(ops), depth, 500000, func(h []int) (string, bool) {
+			stopWatch := c.Watch("body-call-history", kase{cf, append([]int{}, h...)}, 2*time.Minute)
+			defer stopWatch()
 			key, terminal := execute(w, cf, h, func(sig, text string) {
 				c.Violation(sig, fmt.Sprintf("configuration:\n%scalls: %v\n%s", conf, histNames(h), text), kase{cf, append([]int{}, h...)})
 			})
